@@ -442,7 +442,9 @@ func TestVerifC01(t *testing.T) {
 		for _, pess := range []bool{false, true} {
 			modes := [][2]bool{{false, false}}
 			if be == uni.Uni {
-				modes = append(modes, [2]bool{true, false}, [2]bool{true, true})
+				// (1PC without async commit is a mode of its own: the commit ts is calculated by the store although
+				// the transaction is not an async-commit one)
+				modes = append(modes, [2]bool{true, false}, [2]bool{true, true}, [2]bool{false, true})
 			}
 			for _, m := range modes {
 				cfgs = append(cfgs, config{backend: be, pessimistic: pess, async: m[0], one: m[1]})
